@@ -3,7 +3,7 @@
    stay Coq datatypes.  No Extract Constant. *)
 From Coq Require Extraction.
 From Coq Require ExtrOcamlBasic.
-From PasfmtVerif Require Import Model.Token Model.Reconstruct Model.Rewriters Model.Toggle Model.Canon Model.DirectiveTree Model.Cursor Model.MLString Model.MLValue Model.Lines Model.Lexer Model.Spacing Model.FmtData Model.Encoding Model.FileIO Model.ParserKernel Model.Generics Model.Requirements Model.WrapApply Model.LineConsolidators.
+From PasfmtVerif Require Import Model.Token Model.Reconstruct Model.Rewriters Model.Toggle Model.Canon Model.DirectiveTree Model.Cursor Model.MLString Model.MLValue Model.Lines Model.Lexer Model.Spacing Model.FmtData Model.Encoding Model.FileIO Model.ParserKernel Model.Generics Model.Requirements Model.WrapApply Model.LineConsolidators Model.ParserGrammar.
 (* join lives in the proofs file of the multi-line string unit; re-stated here for the oracle *)
 Module MLStringJoin.
   Fixpoint join (nl : bytes) (ls : list bytes) : bytes :=
@@ -28,4 +28,5 @@ Extraction "model.ml"
   generics_consolidate lines_violations formatting_invariant
   olf_effect
   conddir_consolidate conddir_consolidate_std conddir_consolidate_chk deindent_package
-  conddir_lines_singleton no_voided unique_first_tokens lines_cover_nv.
+  conddir_lines_singleton no_voided unique_first_tokens lines_cover_nv
+  parse_file_with parse_file_model parsed_token_types.
